@@ -208,6 +208,122 @@ func rulesC19(p *Prog, r *Report) {
 		}
 	}
 
+	// R19.5 the per-epoch split is empty only when the deposit is smaller than the number of epochs
+	r.Rule("R19.5", "SplitTotalAmountPerEpoch returns no allocation only when total < epochs", 1)
+	{
+		fn := p.MustFunc("x/rewards/keeper.SplitTotalAmountPerEpoch")
+		r.FuncsSeen[fname(fn)] = true
+		var total, epochs *ssa.Parameter
+		if len(fn.Params) == 2 {
+			total, epochs = fn.Params[0], fn.Params[1]
+		}
+		g := p.cmpGuard("total < epochs", func(v ssa.Value) bool { return v == total }, func(v ssa.Value) bool { return v == epochs }, RLT)
+		// returns of the empty (never appended) slice
+		n := 0
+		for _, rt := range returns(fn) {
+			if len(rt.Results) != 1 {
+				continue
+			}
+			empty := true
+			for _, alt := range phiAlternatives(rt.Results[0]) {
+				if c, ok := alt.(*ssa.Call); ok {
+					if bi, ok := c.Call.Value.(*ssa.Builtin); ok && bi.Name() == "append" {
+						empty = false
+					}
+				}
+			}
+			if !empty {
+				continue
+			}
+			n++
+			r.Instance("R19.5")
+			if ok, _, w := p.guardedTargets(g, fn, []*ssa.BasicBlock{rt.Block()}, 0); ok {
+				r.OK("R19.5", fname(fn)+" empty split", "only when total < epochs", p.instrPos(rt))
+			} else {
+				r.Fail("R19.5", fname(fn)+" empty split", "the split can be empty although the deposit is not smaller than the number of epochs: the allocations no longer sum to the deposit and the gauge never pays", p.instrPos(rt), w)
+			}
+		}
+		if n == 0 {
+			r.Instance("R19.5")
+			r.OK("R19.5", fname(fn)+" empty split", "no empty-split return", p.pos(fn.Pos()))
+		}
+	}
+
+	// R19.6 external reward programs pay from, and reduce, AvailableRewards
+	r.Rule("R19.6", "external reward programs: payouts derive from AvailableRewards (not TotalRewards) and AvailableRewards is reduced", 4)
+	{
+		rewardsMod := modConst(p, "x/rewards/types")
+		for _, name := range []string{"DistributeExtRewardLocker", "DistributeExtRewardVault", "DistributeExtRewardLend", "DistributeExtRewardStableVault"} {
+			fn := p.MustFunc("x/rewards/keeper.Keeper." + name)
+			r.FuncsSeen[fname(fn)] = true
+			r.Instance("R19.6")
+			bad := ""
+			nPay := 0
+			for _, c := range calls(fn) {
+				be := bankEffect(c)
+				if be == nil || be.Op != "ModToAcc" || moduleName(be.From) != rewardsMod {
+					continue
+				}
+				nPay++
+				amts, _ := p.coinParts(be.Coins)
+				for _, a := range amts {
+					avail, total := false, false
+					// follow the amount through every call (oracle valuation helpers included)
+					seen := map[ssa.Value]bool{}
+					var rec func(v ssa.Value, d int)
+					rec = func(v ssa.Value, d int) {
+						if v == nil || seen[v] || d > 14 {
+							return
+						}
+						seen[v] = true
+						for _, o := range p.DeepOrigins(v) {
+							for i, f := range o.Path {
+								if f == "AvailableRewards" {
+									avail = true
+								}
+								if f == "TotalRewards" && i+1 < len(o.Path) && o.Path[i+1] == "Amount" {
+									total = true
+								}
+							}
+							if o.Kind == "call" {
+								for _, arg := range o.Call.Call.Args {
+									rec(arg, d+1)
+								}
+							}
+						}
+					}
+					rec(a, 0)
+					if !avail || total {
+						bad = fmt.Sprintf("payout at %s derives from AvailableRewards=%v TotalRewards.Amount=%v", p.instrPos(c), avail, total)
+					}
+				}
+			}
+			reduced := false
+			for _, b := range fn.Blocks {
+				for _, in := range b.Instrs {
+					if st, ok := in.(*ssa.Store); ok {
+						_, path := addrBase(st.Addr)
+						if len(path) > 0 && path[0] == "AvailableRewards" {
+							if op, _, _, ok := addSubOf(st.Val); ok && op == "Sub" {
+								reduced = true
+							}
+						}
+					}
+				}
+			}
+			switch {
+			case nPay == 0:
+				r.Fail("R19.6", fname(fn), "no payout found", p.pos(fn.Pos()), nil)
+			case bad != "":
+				r.Fail("R19.6", fname(fn), "the daily payout of an external reward program is not computed from the remaining AvailableRewards (or mixes in TotalRewards): "+bad+"; the program can pay more than it was funded with", p.pos(fn.Pos()), nil)
+			case !reduced:
+				r.Fail("R19.6", fname(fn), "AvailableRewards is never reduced by what was paid", p.pos(fn.Pos()), nil)
+			default:
+				r.OK("R19.6", fname(fn), "payouts derive from AvailableRewards, which is reduced by the tracked amount", p.pos(fn.Pos()))
+			}
+		}
+	}
+
 	// R19.4 sibling agreement ----------------------------------------------------------
 	r.Rule("R19.4", "sibling farming valuations pick the oracle-priced reserve side by the same pair field", 2)
 	{
@@ -441,46 +557,128 @@ func rulesC10(p *Prog, r *Report) {
 	}
 
 	// R10.4 ------------------------------------------------------------------------
-	r.Rule("R10.4", "a restart refreshes initial, current and end price and the end time together", 2)
+	r.Rule("R10.4", "a restart re-sets every price field the auction start derives from the oracle price (and the end time)", 3)
 	{
-		want := []string{"OutflowTokenInitialPrice", "OutflowTokenCurrentPrice", "OutflowTokenEndPrice", "EndTime"}
-		for _, name := range []string{"x/auction/keeper.Keeper.RestartDutchAuctions$1", "x/auction/keeper.Keeper.RestartDutchLendAuctions$1"} {
-			fn := p.Func(name)
-			if fn == nil {
-				analysisError("anchor unresolved: %s", name)
-			}
-			r.FuncsSeen[name] = true
-			// regions: blocks that store OutflowTokenCurrentPrice from a freshly computed oracle-based price
-			n := 0
-			for _, b := range fn.Blocks {
-				stored := map[string]bool{}
-				for _, in := range b.Instrs {
-					if st, ok := in.(*ssa.Store); ok {
-						base, path := addrBase(st.Addr)
-						if namedTypeName(base.Type()) == "DutchAuction" && len(path) > 0 {
-							stored[path[0]] = true
-						}
-					}
+		oracleDerived := func(v ssa.Value) bool {
+			for _, o := range p.DeepOrigins(v) {
+				if o.Kind == "call" && p.callIs(o.Call, "GetTwa", "CalcAssetPrice", "GetLatestPrice") {
+					return true
 				}
-				if !stored["OutflowTokenEndPrice"] && !stored["EndTime"] {
+			}
+			return false
+		}
+		fieldsStored := func(fn *ssa.Function, typ string, onlyOracle bool) map[string]bool {
+			out := map[string]bool{}
+			var fns []*ssa.Function
+			fns = append(fns, fn)
+			for _, b := range fn.Blocks {
+				for _, in := range b.Instrs {
+					st, ok := in.(*ssa.Store)
+					if !ok {
+						continue
+					}
+					base, path := addrBase(st.Addr)
+					if namedTypeName(base.Type()) != typ || len(path) == 0 {
+						continue
+					}
+					if onlyOracle && !oracleDerived(st.Val) {
+						continue
+					}
+					out[path[0]] = true
+				}
+			}
+			return out
+		}
+		type pairT struct {
+			start, restart string
+			typ           string
+		}
+		for _, pr := range []pairT{
+			{"x/auction/keeper.Keeper.StartDutchAuction", "x/auction/keeper.Keeper.RestartDutchAuctions$1", "DutchAuction"},
+			{"x/auction/keeper.Keeper.StartLendDutchAuction", "x/auction/keeper.Keeper.RestartDutchLendAuctions$1", "DutchAuction"},
+			{"x/auctionsV2/keeper.Keeper.DutchAuctionActivator", "x/auctionsV2/keeper.Keeper.RestartDutchAuction", "Auction"},
+		} {
+			st, rs := p.Func(pr.start), p.Func(pr.restart)
+			if st == nil || rs == nil {
+				analysisError("anchor unresolved: %s / %s", pr.start, pr.restart)
+			}
+			r.FuncsSeen[pr.start] = true
+			r.FuncsSeen[pr.restart] = true
+			atStart := fieldsStored(st, pr.typ, true)
+			atRestart := fieldsStored(rs, pr.typ, false)
+			// the end of the price path is part of it
+			for f := range fieldsStored(st, pr.typ, false) {
+				if f == "EndTime" || strings.HasSuffix(f, "EndPrice") {
+					atStart[f] = true
+				}
+			}
+			var fs []string
+			for f := range atStart {
+				fs = append(fs, f)
+			}
+			sort.Strings(fs)
+			for _, f := range fs {
+				if restartExempt[pr.restart+"."+f] != "" {
+					r.Note("R10.4 exception %s.%s: %s", pr.restart, f, restartExempt[pr.restart+"."+f])
 					continue
 				}
-				// a restart region (sets a new end price / end time)
-				n++
 				r.Instance("R10.4")
-				construct := fmt.Sprintf("%s restart region #%d", name, n)
-				var missing []string
-				for _, w := range want {
-					if !stored[w] {
-						missing = append(missing, w)
-					}
-				}
-				if len(missing) == 0 {
-					r.OK("R10.4", construct, "initial, current and end price and end time refreshed together", p.instrPos(b.Instrs[0]))
+				construct := fmt.Sprintf("%s re-sets %s.%s", pr.restart, pr.typ, f)
+				if atRestart[f] {
+					r.OK("R10.4", construct, "set at start from the oracle price and re-set at restart", p.pos(rs.Pos()))
 				} else {
-					r.Fail("R10.4", construct, "a restart refreshes part of the price path but not "+strings.Join(missing, ", ")+": the posted price is afterwards derived from a stale field and can leave the [end price, start price] band", p.instrPos(b.Instrs[0]), nil)
+					r.Fail("R10.4", construct, "the auction start derives this field from the oracle price but the restart does not refresh it: after a restart the posted price is computed from the previous cycle's value and can leave the [end price, start price] band", p.pos(rs.Pos()), nil)
 				}
 			}
 		}
 	}
+
+	// R10.5 ------------------------------------------------------------------------
+	r.Rule("R10.5", "v1 bids: the debt taken is clipped to the REMAINING target (target minus collected), not the whole target", 2)
+	for _, name := range []string{"x/auction/keeper.Keeper.PlaceDutchAuctionBid", "x/auction/keeper.Keeper.PlaceLendDutchAuctionBid"} {
+		fn := p.Func(name)
+		if fn == nil {
+			analysisError("anchor unresolved: %s", name)
+		}
+		r.FuncsSeen[name] = true
+		r.Instance("R10.5")
+		isInflow := func(v ssa.Value) bool {
+			os := p.Origins(v)
+			if len(os) == 0 {
+				return false
+			}
+			for _, o := range os {
+				if !(o.Kind == "call" && p.callIs(o.Call, "GetAmountOfOtherToken")) {
+					return false
+				}
+			}
+			return true
+		}
+		isRemaining := func(v ssa.Value) bool {
+			return p.fromRecordFieldsLoose(v, map[string]bool{"DutchAuction": true}, map[string]bool{"InflowTokenTargetAmount": true}) &&
+				p.fromRecordFieldsLoose(v, map[string]bool{"DutchAuction": true}, map[string]bool{"InflowTokenCurrentAmount": true})
+		}
+		found := false
+		for _, b := range fn.Blocks {
+			ifi, ok := b.Instrs[len(b.Instrs)-1].(*ssa.If)
+			if !ok {
+				continue
+			}
+			x, y, onT, _, isCmp := p.CmpRel(ifi.Cond)
+			if !isCmp || x == nil || y == nil {
+				continue
+			}
+			if isInflow(x) && isRemaining(y) && onT.subsetOf(RGE) {
+				found = true
+			}
+		}
+		if found {
+			r.OK("R10.5", name+" clip to remaining target", "inflow > (target - collected) clips the bid", p.pos(fn.Pos()))
+		} else {
+			r.Fail("R10.5", name+" clip to remaining target", "the debt amount a bid pays is not compared with the remaining target (target minus what was already collected): after a partial bid an over-sized bid is accepted in full and the surplus stays unaccounted in auction custody", p.pos(fn.Pos()), nil)
+		}
+	}
 }
+
+// fields the start derives from the oracle that a restart legitimately leaves alone
+var restartExempt = map[string]string{}
